@@ -3488,6 +3488,101 @@ pub(crate) async fn parse_module_source_and_info(
   }
 }
 
+/// Verification hook (see /verif): runs the crate-private
+/// `parse_module_source_and_info` on caller-supplied options and summarises
+/// what it produced. Only compiled with `--cfg deno_graph_verif`; used by the
+/// native replay binary to confirm solver counterexamples.
+#[cfg(deno_graph_verif)]
+#[derive(Debug)]
+pub struct VerifParsedModule {
+  /// "json", "js" or "wasm"
+  pub kind: &'static str,
+  pub specifier: ModuleSpecifier,
+  pub media_type: MediaType,
+  pub mtime: Option<SystemTime>,
+  /// Stored source text of a text module.
+  pub text: Option<Arc<str>>,
+  /// Stored bytes of a Wasm module.
+  pub bytes: Option<Arc<[u8]>>,
+}
+
+#[cfg(deno_graph_verif)]
+#[allow(clippy::too_many_arguments)]
+#[allow(clippy::result_large_err)]
+pub async fn verif_parse_module_source_and_info(
+  module_analyzer: &dyn ModuleAnalyzer,
+  specifier: ModuleSpecifier,
+  maybe_headers: Option<HashMap<String, String>>,
+  mtime: Option<SystemTime>,
+  content: Arc<[u8]>,
+  maybe_attribute_type: Option<(Range, String)>,
+  maybe_referrer: Option<Range>,
+  maybe_source_phase_referrer: Option<Range>,
+  is_root: bool,
+  is_dynamic_branch: bool,
+  unstable_config_imports: bool,
+) -> Result<VerifParsedModule, ModuleError> {
+  let attribute_type = maybe_attribute_type
+    .map(|(range, kind)| AttributeTypeWithRange { range, kind });
+  let parsed = parse_module_source_and_info(
+    module_analyzer,
+    ParseModuleAndSourceInfoOptions {
+      specifier,
+      maybe_headers,
+      mtime,
+      content,
+      maybe_attribute_type: attribute_type.as_ref(),
+      maybe_referrer: maybe_referrer.as_ref(),
+      maybe_source_phase_referrer: maybe_source_phase_referrer.as_ref(),
+      is_root,
+      is_dynamic_branch,
+      unstable_config_imports,
+    },
+  )
+  .await?;
+  let media_type = parsed.media_type();
+  Ok(match parsed {
+    ModuleSourceAndInfo::Json {
+      specifier,
+      mtime,
+      source,
+    } => VerifParsedModule {
+      kind: "json",
+      specifier,
+      media_type,
+      mtime,
+      text: Some(source.text),
+      bytes: None,
+    },
+    ModuleSourceAndInfo::Js {
+      specifier,
+      mtime,
+      source,
+      ..
+    } => VerifParsedModule {
+      kind: "js",
+      specifier,
+      media_type,
+      mtime,
+      text: Some(source.text),
+      bytes: None,
+    },
+    ModuleSourceAndInfo::Wasm {
+      specifier,
+      mtime,
+      source,
+      ..
+    } => VerifParsedModule {
+      kind: "wasm",
+      specifier,
+      media_type,
+      mtime,
+      text: None,
+      bytes: Some(source),
+    },
+  })
+}
+
 pub(crate) struct ParseModuleOptions {
   pub graph_kind: GraphKind,
   pub module_source_and_info: ModuleSourceAndInfo,
